@@ -602,6 +602,71 @@ def expected_query(c, spec, names):
     return sorted(base)
 
 
+API_C07 = {
+    'covered_before': ['AbstractBasis.get_dofs (facets / elements / nodes / skip, dictionary form)', 'AbstractBasis.complement_dofs (one, several, dict)',
+                       'Dofs.get_facet_dofs / get_element_dofs / get_vertex_dofs / _dofnames_to_rows / _by_name', 'DofsView.flatten / all / keep / drop / __or__ / '
+                       'nodal / facet / edge / interior / __array__', 'Mesh._expand_facets', 'Mesh.normalize_facets / normalize_elements / normalize_nodes (all forms, '
+                       'empty collections, ints)', 'Mesh.with_boundaries / with_subdomains / with_defaults (histories)', 'Mesh.facets_satisfying / nodes_satisfying / '
+                       'elements_satisfying (boundaries_only, normal)', 'MeshTri2 / MeshQuad2 / MeshTet2 contexts'],
+    'covered_now': ['DofsView.__len__ / __add__ / sort / __str__', 'FacetBasis.get_dofs and CellBasis.with_elements(...).get_dofs (same answers as the full cell basis)',
+                    'Mesh.normalize_nodes point form (tuple of coordinates)', 'get_dofs with an OrientedBoundary tag / facets_around result as selector',
+                    'AbstractBasis.get_dofs on a basis created by with_element'],
+    'out_of_scope': {'Dofs.decompose / l2g / loc': 'PETSc (not installed)', 'DofsView.doflocs-based plotting helpers': 'visualisation',
+                     'AbstractBasis.interpolate / project / split*': 'function evaluation / block structure (C01, C19)'}}
+
+
+def oracle_api(ctx, c, rng):
+    """thin wrappers around the lookup: the same query through another door gives the same DOFs"""
+    from skfem.assembly import FacetBasis
+    b, m = c.basis, c.m
+    data = {'kind': c.kind, 'element': c.name, 'p': m.p.tolist(), 't': m.t.tolist()}
+    nfx = m.facets.shape[1]
+    F = np.unique(rng.integers(0, nfx, size=3)).astype(np.int32)
+    want = b.get_dofs(F).flatten().tolist()
+    ctx.count(('api', c.kind, c.name, m.t.tolist()), nontrivial=True)
+
+    def bad(what, got):
+        ctx.fail(f'api:{what}', f'{c.name} on {type(m).__name__}: {what} gives {str(got)[:80]}, get_dofs({F.tolist()}).flatten() gives {str(want)[:60]}',
+                 dict(data, facets=F.tolist(), call=what))
+    v = b.get_dofs(F)
+    if len(v) != len(want) or (v + v).flatten().tolist() != want or sorted(np.asarray(v.sort()).tolist()) != want or not isinstance(str(v), str):
+        bad('DofsView.__len__/__add__/sort', (len(v), (v + v).flatten().tolist()))
+    try:
+        fb = FacetBasis(m, c.elem, intorder=2)
+        got = fb.get_dofs(F).flatten().tolist()
+        if got != want:
+            bad('FacetBasis.get_dofs', got)
+    except (NotImplementedError, ValueError, AttributeError):
+        pass
+    sub = b.with_elements(np.array([0], dtype=np.int32))
+    got = sub.get_dofs(F).flatten().tolist()
+    if got != want:
+        bad('with_elements(...).get_dofs', got)
+    got = b.with_element(c.elem).get_dofs(F).flatten().tolist()
+    if got != want:
+        bad('with_element(...).get_dofs', got)
+    # an oriented boundary (facets_around) as tag and as selector
+    E = np.array([0], dtype=np.int32)
+    ob = m.facets_around(E)
+    mo = m.with_boundaries({'around': ob})
+    from skfem.assembly import Basis
+    bo = Basis(mo, c.elem, intorder=2)
+    w2 = b.get_dofs(np.asarray(ob, dtype=np.int32)).flatten().tolist()
+    for what, got in (('get_dofs(OrientedBoundary)', b.get_dofs(ob).flatten().tolist()), ("get_dofs('around') (oriented tag)", bo.get_dofs('around').flatten().tolist())):
+        if got != w2:
+            ctx.fail('api:oriented-boundary-selector', f'{c.name} on {type(m).__name__}: {what} gives {len(got)} DOFs, the plain index array of the same facets {len(w2)}',
+                     dict(data, call=what))
+    # nodes given as a point (tuple of coordinates)
+    if b.nodal_dofs.size:
+        v0 = int(rng.integers(int(m.nvertices)))
+        pt = tuple(float(x) for x in m.p[:, v0])
+        got = b.get_dofs(nodes=pt).flatten().tolist()
+        w3 = b.get_dofs(nodes=np.array([v0], dtype=np.int32)).flatten().tolist()
+        if got != w3:
+            ctx.fail('api:nodes-point-form', f'{c.name} on {type(m).__name__}: get_dofs(nodes={pt}) gives {got}, the vertex {v0} at that point carries {w3}',
+                     dict(data, point=list(pt), vertex=v0))
+
+
 def oracle_context(ctx, c, rng):
     b, m = c.basis, c.m
     names = bfun_names(c)
@@ -932,9 +997,11 @@ def run(ctx):
                 ctx.sample({'mesh': kind, 'element': name, 'query': repr(qs[0][2]), 'result_of_impl': outs[0]})
             try:
                 oracle_context(ctx, c, rng)
+                oracle_api(ctx, c, rng)
             except Exception as ex:
                 import traceback
                 ctx.fail(f'elem={name}:{kind}:oracle-exception', f'{type(ex).__name__}: {ex}', {'kind': kind, 'element': name, 'tb': traceback.format_exc()[-600:]})
+    ctx.extra['api_coverage'] = API_C07
     ctx.log(f'{nctx} contexts, {sum(len(c[2][2]) for c in cases)} queries')
     if gen_ok:
         bad = ctx.corr('get_dofs', 'Require Import Base.C11_Unique Model.C04_Dofs Model.C07_Query Gen.C04Gen Gen.C07Gen.\n'
